@@ -7,7 +7,7 @@ import gen
 import numeric as N
 
 
-def build_ops(rng, spec):
+def build_ops(rng, spec, budget=96):
     """list of (python op, model query, k, raw_scale_query_index or None)"""
     ops = []
     has_end = spec.get('end_time') is not None
@@ -28,6 +28,21 @@ def build_ops(rng, spec):
     # cross moment through Coalescent.moment with explicit rewards
     ops.append(({'kind': 'moment', 'route': 'coal', 'k': 2, 'rewards': [['TreeHeight'], ['TotalBranchLength']], 'center': True},
                 dict(kind='moment', k=2, rewards=[['TreeHeight'], ['TotalBranchLength']], center=True)))
+    # cost control: the binary64 model multiplies ((k+1) * states)-dimensional matrices inside Coq (one core per configuration);
+    # orders whose Van Loan matrix exceeds the budget are left to the larger tier (means are always compared)
+    d_ = len(spec['n_items'])
+    K = sum(math.comb(m + d_ - 1, d_ - 1) for m in range(1, gen.effective_n(spec) + 1))
+    ops = [o for o in ops if o[1]['k'] == 1 or (o[1]['k'] + 1) * K <= budget]
+    # total cost of one configuration (it is evaluated on ONE core): sum over operations of dim^3 * (epochs + 1); the most
+    # expensive higher-order operations are dropped until the estimate fits (about 8e-6 s per unit)
+    E = len({t for d in spec['pop_sizes'].values() for t in d} | {t for d in (spec.get('migration_rates') or {}).values() for t in d})
+    cost = lambda o: ((o[1]['k'] + 1) * K) ** 3 * (E + 1)
+    cap = 6e6 * (budget / 96.0) ** 3
+    while sum(cost(o) for o in ops) > cap:
+        worst = max((o for o in ops if o[1]['k'] > 1), key=cost, default=None)
+        if worst is None:
+            break
+        ops.remove(worst)
     return ops
 
 
@@ -59,7 +74,7 @@ def run(res, replay=None):
                                        size_range=(-3, 3), mig_only_boundary=(i % 3 == 0)))
     cases = []
     for s in specs:
-        ops = build_ops(rng, s)
+        ops = build_ops(rng, s, budget=(96 if res.tier == 'quick' else 180))
         cases.append({'spec': s, 'ops': [o[0] for o in ops], '_q': [o[1] for o in ops]})
     outs = C.run_impl_parallel('numeric.py', [{'cases': [{'spec': c['spec'], 'ops': c['ops']}]} for c in cases])
     bodies, keep = [], []
@@ -102,7 +117,8 @@ def run(res, replay=None):
                 ok = N.close_f(m, iv, 1e-7, 1e-12)
             else:
                 # scale of the raw moment of the same order: E[X^k] <= use the model's uncentred value bound via mean^k and value
-                scale = max(abs(m), abs(iv), abs(mv[0][0]) ** k if q['rewards'][0] == ['TreeHeight'] else abs(mv[6][0]) ** k)
+                jl = next(j_ for j_, o_ in enumerate(c['ops']) if o_.get('path') == 'total_branch_length.mean')
+                scale = max(abs(m), abs(iv), abs(mv[0][0]) ** k if q['rewards'][0] == ['TreeHeight'] else abs(mv[jl][0]) ** k)
                 ok = abs(m - iv) <= 1e-6 * scale + 1e-12
             if not ok and not (warned and c['spec'].get('end_time') is None):
                 res.violation('moment differs from the moment of the labelled coalescent (model value)',
